@@ -134,9 +134,22 @@ def lookup_class_with_patches(name):
     A wrapper to lookup_class that also patches paths to ensure
     backward-compatibility when functions/classes are moved around.
     """
+    original = name
     while name in PATH_PATCHES:
         name = PATH_PATCHES[name]
-    return lookup_class(name)
+    try:
+        return lookup_class(name)
+    except ValueError:
+        # The new location cannot be imported, e.g. because it lives in a
+        # package that is not installed (glue_qt). If the original path still
+        # exists - because this package still defines (and writes) a class
+        # under that name - we use it rather than refusing to load.
+        if name != original:
+            try:
+                return lookup_class(original)
+            except ValueError:
+                pass
+        raise
 
 
 class GlueSerializeError(RuntimeError):
